@@ -22,7 +22,8 @@ ScopeManager = KRecord('_ScopeManager',
 # viewed as two predicates over paths (components innermost first): alive(pi) -- a
 # dict object exists at pi; term(pi) -- that dict has the '$' key.  Code in
 # config.py only ever sees the map through the method contracts.
-SelTree = KRecord('SelTree', {'alive': KSet(KPath), 'term': KSet(KPath)},
+SelTree = KRecord('SelTree', {'alive': KSet(KPath), 'term': KSet(KPath),
+                              'tval': KDict(KPath, KStr), 'tnone': KSet(KPath)},
                   mutable=True)
 StrValDict = KDict(KStr, KVal)
 SelectorMap = KRecord('SelectorMap',
